@@ -54,6 +54,11 @@ def path_axioms():
     return True
 
 
+def name0(a):
+    """name_of(a), for use inside quantified clauses (proof: the bare term)"""
+    return a.name
+
+
 def P0(s):
     """P(s), for use inside quantified clauses (proof: the bare term, no axiom instances)"""
     return pathlib.PurePosixPath(s)
@@ -289,6 +294,10 @@ def _m_path_axioms(interp, args, kwargs):
     return True
 
 
+def _m_name0(interp, args, kwargs):
+    return SStr(_name()(_term(args[0])))
+
+
 def _m_P0(interp, args, kwargs):
     s = args[0]
     return SInt(_of_str()(to_z3(s) if not z3.is_expr(s) else s))
@@ -418,20 +427,96 @@ def _fs(event, returns=None, raises=(OSError,)):
     return Method(event=event, returns=returns, may_raise=raises)
 
 
+# ---- what exists: the ghost state of the file system, with symbolic links distinguished from what they point to
+#   entry(t, p)   at time t the directory of p has an entry named as p says -- of ANY kind, also a symbolic link that
+#                 points nowhere (what lstat sees)
+#   target(t, p)  at time t p leads to a file, symbolic links followed (what exists() sees);  target => entry
+# `t` is the ghost counter st.ghost['fs_epoch']: every operation that may change the file system advances it
+# (`fs_changed`), after which nothing is known about the new state.
+
+def _entry_fn():
+    return _fn('fs.entry', z3.IntSort(), z3.IntSort(), z3.BoolSort())
+
+
+def _target_fn():
+    return _fn('fs.target', z3.IntSort(), z3.IntSort(), z3.BoolSort())
+
+
+def _epoch(interp):
+    e = interp.st.ghost.setdefault('fs_epoch', 0)
+    return to_z3(e) if not z3.is_expr(e) else e
+
+
+def fs_changed(interp):
+    interp.st.ghost['fs_epoch'] = wrap(z3.simplify(_epoch(interp) + 1))
+
+
+def mk_entry_exists(interp, pid):
+    t = _entry_fn()(_epoch(interp), _term(pid))
+    interp.st.assume(z3.Implies(_target_fn()(_epoch(interp), _term(pid)), t))
+    return wrap(t)
+
+
+def mk_target_exists(interp, pid):
+    t = _target_fn()(_epoch(interp), _term(pid))
+    interp.st.assume(z3.Implies(t, _entry_fn()(_epoch(interp), _term(pid))))
+    return wrap(t)
+
+
+def entry_exists(a):
+    """NOW there is a directory entry of any kind (file, directory, symbolic link -- also a dangling one) at a"""
+    return os.path.lexists(str(a))
+
+
+def target_exists(a):
+    """NOW a leads to a file or directory, symbolic links followed"""
+    return os.path.exists(str(a))
+
+
+def _lstat(interp, self, args, kwargs):
+    """lstat(): FileNotFoundError iff there is no entry of any kind (the directory of the path is assumed to be
+    accessible: it is the directory that is being populated)"""
+    from pyvc.interp import PyRaise
+    interp.st.emit('lstat', self, ())
+    if interp.branch(mk_entry_exists(interp, interp.getattr(self, 'pid'))):
+        return Any_.make(interp, 'stat_result')
+    raise PyRaise(FileNotFoundError(2, 'No such file or directory'))
+
+
+def _exists(interp, self, args, kwargs):
+    interp.st.emit('exists', self, ())
+    return mk_target_exists(interp, interp.getattr(self, 'pid'))
+
+
+def _iterdir(interp, self, args, kwargs):
+    """iterdir(): OSError, or the entries of the directory: paths dir/NAME, NAME a single component other than
+    '.' and '..' (each entry once, names distinct)"""
+    from pyvc.interp import PyRaise
+    from pyvc.api import ListOf
+    a = self._pv_attrs
+    if '__iterdir__' not in a:
+        if interp.st.choose(2) == 1:
+            raise PyRaise(PermissionError(13, 'iterdir'))
+        xs = ListOf(Iface(PathI)).make(interp, self._pv_uid + '.iterdir()')
+        a['__iterdir__'] = xs
+    return a['__iterdir__']
+
+
 class PathI(PurePathI):
     """pathlib.Path (PosixPath): additionally `cwd()`, which reads the ghost current directory, and the
     file-system operations, which are ghost events ('<op>', path, args) that may fail with OSError"""
     target_class = pathlib.PosixPath
     methods = {
         'cwd': Method(model=_cwd),
-        'lstat': _fs('lstat', Any_, (FileNotFoundError, NotADirectoryError, PermissionError)),
+        'lstat': Method(model=_lstat),
         'stat': _fs('stat', Any_, (FileNotFoundError, NotADirectoryError, PermissionError)),
         'open': _fs('open', Iface(FileObjI)),
         'unlink': _fs('unlink'),
         'mkdir': _fs('mkdir', None, (FileExistsError, NotADirectoryError, PermissionError)),
         'is_dir': _fs('is_dir', Bool, (NotADirectoryError,)),
         'is_file': _fs('is_file', Bool, ()),
-        'exists': _fs('exists', Bool, ()),
+        'exists': Method(model=_exists),
+        'iterdir': Method(model=_iterdir),
     }
 
 
@@ -480,6 +565,9 @@ def install(M):
     M.model(parts_of, _m_parts_of)
     M.model(prefix, _m_prefix)
     M.model(parent_of, _m_parent_of)
+    M.model(entry_exists, lambda interp, args, kwargs: mk_entry_exists(interp, args[0]))
+    M.model(target_exists, lambda interp, args, kwargs: mk_target_exists(interp, args[0]))
+    M.model(name0, _m_name0)
     M.model(name_of, _m_name_of)
     M.model(pathlib.Path, _construct(PathI))
     M.model(pathlib.PosixPath, _construct(PathI))
